@@ -6,7 +6,8 @@
 
    WHICH DEFINITION.  Two transcriptions of this expression are generic in the numeric record of Base/NumOps.v:
    [accuracy_F] (Model/KnnLearn.v; run bit-for-bit against the library at FOps by C16) and [opf_accuracy_ops]
-   (Model/LearnFullFloat.v; the same expression with zipw instead of nth, run by C17).  The theorems below are about
+   (Model/LearnFullFloat.v; the same expression with zipw instead of nth, run by C17; equal to [accuracy_F] for every
+   numeric record when K < 8: [C20_rounding_same_as_learn_model]).  The theorems below are about
    [accuracy_F (RndOps rnd)]: the reals with [rnd] after every + - * / (Base/NumOpsRnd.v), INCLUDING numpy's pairwise
    np.sum for every number of classes K (plain loop from 0. below 8 entries, eight accumulators + balanced
    combination up to 128, recursive halving above) - Proofs/NpSumRel.v is an induction principle over that
@@ -41,7 +42,7 @@
    Non-vacuity ([C20_rounding_nonvacuous]): u = 2^-53, rnd = rnd_up u (Proofs/RdepthWitness.v, not the identity),
    labels [0;0;1;1], preds [0;1;1;1]: A = 3/4, A_fl computed in closed form, A_fl < A. *)
 From Coq Require Import Reals QArith Qreals List Arith.
-From OPF Require Model.Measures.
+From OPF Require Model.Measures Model.LearnFullFloat Proofs.AccuracyOpsAgree.
 From OPF Require Import Model.MetricRdepth Model.KnnLearn Model.AccuracyRnd Proofs.RdepthWitness
      Proofs.AccuracyRounding Proofs.AccuracyExactQ Base.NumOpsRnd Base.NumOps.
 Import ListNotations.
@@ -78,6 +79,13 @@ Theorem C20_rounding_small_K : forall (rnd : R -> R) (labels preds : list nat),
   (Measures.n_class labels < 8)%nat ->
   accuracy_F (RndOps rnd) labels preds = accuracy_rnd rnd labels preds.
 Proof. exact accuracy_F_rnd_small. Qed.
+
+(* the other NumOps-generic transcription (Model/LearnFullFloat.v, the learn loop of C17) is the same function for
+   every interpretation of the numeric record below 8 classes, so everything here also speaks about it there *)
+Theorem C20_rounding_same_as_learn_model : forall (F : Type) (O : NumOps F) (labels preds : list nat),
+  (Measures.n_class labels < 8)%nat ->
+  LearnFullFloat.opf_accuracy_ops O labels preds = accuracy_F O labels preds.
+Proof. exact (@AccuracyOpsAgree.opf_accuracy_ops_accuracy_F). Qed.
 
 (* ---------------- (a) ---------------- *)
 Theorem C20_rounding_terms : forall u rnd, 0 <= u < 1 -> rnd_rel u rnd ->
